@@ -8,6 +8,9 @@ VO = ['Props/C02.vo', 'Tie/SqrtArk.vo']      # decode/encode call the table-driv
 FILES = ['Props/C02.v', 'Proofs/Codec.v', 'Proofs/BytesLemmas.v', 'Proofs/ByteLevel.v', 'Proofs/Final.v', 'Tie/Curve.v', 'Proofs/Instance.v', 'Proofs/SqrtTS.v', 'Proofs/SqrtSarkar.v']
 ENTRY32 = {'ark': ['el.dec', 'el.dec.decompress', 'el.dec.tf_enc', 'el.dec.tf_encref', 'el.dec.tf_arr', 'el.dec.tf_slice', 'el.dec.enc_tf_slice', 'el.deser', 'af.deser'],
            'min': ['el.dec', 'el.dec.tf_enc', 'el.dec.tf_encref', 'el.dec.tf_arr', 'el.dec.tf_slice', 'el.dec.enc_tf_slice']}
+# the serialisation modes the crate does not implement (Validate::No, Compress::No): they may stop (unimplemented!()), but must never hand out
+# an element for a string the specification rejects, nor a different element
+LENIENT = {'ark': ['el.deser_unchecked', 'af.deser_unchecked', 'el.deser_uncompressed', 'af.deser_uncompressed'], 'min': []}
 ANYLEN = {'ark': ['el.dec.tf_slice', 'el.dec.enc_tf_slice', 'el.deser', 'af.deser'], 'min': ['el.dec.tf_slice', 'el.dec.enc_tf_slice']}
 
 def strings(ctx, build, scale):
@@ -22,6 +25,8 @@ def build_scripts(ctx, scale):
         for i, s in enumerate(ss):
             for op in (ENTRY32[b] if i % 4 == 0 or i < 40 else ENTRY32[b][:1] + [ctx.rng.choice(ENTRY32[b])]):
                 lines.append('%s %s' % (op, hexb(s)))
+            if i % 8 == 0 or i < 24:
+                for op in LENIENT[b]: lines.append('%s %s' % (op, hexb(s)))
         for n in range(0, 81):      # all slice lengths 0..=80, content = prefix/extension of a valid encoding
             base = (8).to_bytes(32, 'little') + bytes([ctx.rng.below(256) for _ in range(48)])
             h = base[:n].hex() if n else '-'
@@ -38,11 +43,12 @@ def search(ctx, scale, hints):
             if len(t) > 1 and len(t[1]) == 64: ss.append(int.from_bytes(bytes.fromhex(t[1]), 'little'))
         lines = []; meta = []
         for s in ss:
-            for op in ENTRY32[b]:
+            for op in ENTRY32[b] + LENIENT[b]:
                 lines.append('%s %s' % (op, hexb(s))); meta.append((op, s))
         out = harness.run_script(b, lines)
         for (op, s), l, o in zip(meta, lines, out):
             spec = pyref.decode_spec(s)
+            if op in LENIENT[b] and (o == 'PANIC' or o.startswith('ERR')): continue      # unsupported mode: nothing handed out
             if o == 'PANIC':
                 fails.append(('%s panics on %s (build %s)' % (op, hexb(s), b), {'build': b, 'script': [l], 'output': [o]}, {'class': 'panic', 'build': b, 'op': op})); continue
             if spec is None:
